@@ -11,6 +11,8 @@ other root (names entries, kept host objects).
 from .. import canon, gen, lang, history, monitors
 from ..rng import Streams, weighted
 
+from ..model import runaway
+
 ID = 'C12'
 LEVEL = 'exploration'
 TIERS = {'quick': 16000, 'thorough': 600000}
@@ -231,6 +233,8 @@ def generate(seed, tier):
             op['style'] = gen.style(S['render'])
         ops.append(op)
         out = _apply_model(model, op)
+        if runaway(out):
+            ops.pop()        # a time / memory bomb for both worlds: not part of the history
         if out[0] == 'unspec':
             break
     return {'world': world, 'ops': ops}
